@@ -187,7 +187,10 @@ var tagDict = []string{
 	"{msg desc=\"d\"}", "{msg desc=\"d\" meaning=\"m\"}", "{msg}", "{msg desc=\"", "{msg desc=\"d\"}{plural $n}", "{plural $n}", "{plural", "{case 0}", "{/plural}", "{/msg}",
 	"{literal}", "{literal}x{/literal}", "{literal} {", "{/literal}", "{{literal}}a{/literal}", "{literal",
 	"{log}", "{/log}", "{debugger}", "{sp}", "{nil}", "{\\n}", "{\\r}", "{\\t}", "{lb}", "{rb}", "{\\x}", "{\\",
-	"{{$x}}", "{{$x}", "{{", "}}", "{", "}", "{}", "{/}", "{/foo}", "{delcall a}", "{deltemplate a}", "{delpackage a}",
+	"{{$x}}", "{{$x}", "{{", "}}", "{", "}", "{}", "{/}", "{/foo}",
+	// double-brace tags of every command, closed properly and with a single brace
+	"{{literal}}", "{{literal}", "{{literal} a { b } c ", "{{/literal}}", "{{/literal}", "{{print $x}}", "{{print $x}", "{{if $x}}", "{{if $x}", "{{/if}}", "{{/if}",
+	"{{call .t /}}", "{{call .t /}", "{{call .t}", "{{let $v: 1 /}}", "{{let $v: 1 /}", "{{msg desc=\"d\"}}", "{{msg desc=\"d\"}", "{{sp}}", "{{sp}", "{{foreach $i in $l}", "{{switch $x}", "{{case 1}", "{{param a: 1 /}", "{{css $x, b}", "{{@param x: ?}", "{{namespace a}", "{{template .t}", "{{/template}", "{{'a}b'}}", "{{'a}}b'}}", "{delcall a}", "{deltemplate a}", "{delpackage a}",
 	"text", " ", "\n", "\r\n", "<b>", "http://x", "a//b", "\x00", "\xff\xfe", "é", " ", "{1?2:3}", "{[1,2}", "{['a':1]}", "{[:]}", "{f(}", "{f(1,}", "{0x}", "{1e}", "{1.}", "{-}", "{not}", "{$x ?:}", "{$x ? 1}", "{$x?[}", "{$x?.}", "{$x.}", "{.5}",
 	// letters, digits and spaces outside ASCII (the scanner classifies runes with the unicode tables in places)
 	"{-٣}", "{٣}", "{$x.٣}", "{$x?.३}", "{３ + 1}", "{$é}", "{é}", "{$x.é}", "{Ⅷ}", "{x²}", "{$a\u00a0+ 1}", "{$a\u2003}", "{\u00a0}", "{if $x > -٣}", "{$x|é}", "{call .é /}", "{let $é: 1 /}", "{@param é: ?}", "{namespace é}",
